@@ -155,10 +155,12 @@ Proof.
   - unfold residue; intros [_ H]. vm_compute in H. discriminate H.
 Qed.
 (* floating source when the modulus is not representable in the source type *)
+(* (since fix-15 a float is reduced as a double, so only a modulus beyond 2^53 that is not a double is affected:
+    Modular<int64_t,__int128>, Modular<uint64_t,unsigned __int128>; the remaining known finding) *)
 Theorem mi_init_float_modulus_refuted :
-  exists p y r, admissible i32 p /\ rnd 24 y = y /\ mi_init_float_s i32 p 24 y = Some r /\ ~ residue p y r.
+  exists p y r, admissible i64 p /\ rnd 53 y = y /\ mi_init_float_s i64 p (fwide 53) y = Some r /\ ~ residue p y r.
 Proof.
-  exists 16777259, 16777260, 0. split; [|split; [|split]].
+  exists 9007199254740993, 9007199254740994, 2. split; [|split; [|split]].
   - unfold admissible, wf; cbn; lia.
   - reflexivity.
   - reflexivity.
